@@ -12,6 +12,7 @@ import SIM.Driver.Build
 import SIM.Driver.Std
 import SIM.Driver.Derive
 import SIM.Driver.Schema
+import SIM.Driver.Neg
 open SIM SIM.Driver
 
 /-- diagnostic: `decdbg <case> <root> <registry> <hexbytes>` prints what the registry-directed decoder reads -/
@@ -37,6 +38,7 @@ def dispatch (stream : String) (toks : List String) : Verdict :=
   | "derive" => runP deriveCase toks
   | "schema" => runP schemaCase toks
   | "decdbg" => runP decdbg toks
+  | "neg" => runP negCase toks
   | _ => .unmodelled ("unknown stream " ++ stream)
 
 partial def loop (h : IO.FS.Stream) (out : IO.FS.Stream) : IO Unit := do
